@@ -39,8 +39,8 @@ class Planter:
     """hands out distinct decimal literals (with the locale's decimal mark) and remembers them; with shapes=True the
     literals vary in shape (leading / trailing zeros after the mark, no integer part, integers)"""
 
-    def __init__(self, rng, mark=".", shapes=False):
-        self.rng, self.mark, self.lits, self.shapes = rng, mark, [], shapes
+    def __init__(self, rng, mark=".", shapes=False, integers=True):
+        self.rng, self.mark, self.lits, self.shapes, self.integers = rng, mark, [], shapes, integers
 
     def lit(self):
         r = self.rng
@@ -50,7 +50,7 @@ class Planter:
             elif not self.shapes:
                 s = "%d%s%02d" % (r.randint(11, 98), self.mark, r.randint(11, 98))
             else:
-                k = r.randint(0, 5)
+                k = r.randint(0, 5 if self.integers else 4)
                 s = ["%d%s%02d" % (r.randint(11, 98), self.mark, r.randint(11, 98)),
                      "%d%s0%d" % (r.randint(11, 98), self.mark, r.randint(1, 9)),
                      "0%s0%d%d" % (self.mark, r.randint(1, 9), r.randint(1, 9)),
